@@ -395,6 +395,13 @@ fn run_case(c: &J, g: &starlark::environment::Globals, probes: &mut HashMap<Stri
                 Err(p) => json!({"idle_call_stack_panic": clip(&panic_text(p), 300)}),
             };
         }
+        if let Some(name) = c["api_module_get"].as_str() {
+            // host API on the module after the evaluations
+            match catch_unwind(AssertUnwindSafe(|| module.get(name).map(|v| v.get_type().to_owned()))) {
+                Ok(t) => extra["module_get"] = json!(t),
+                Err(p) => extra["module_get_panic"] = json!(clip(&panic_text(p), 300)),
+            }
+        }
         drop(eval);
         json!({"steps": steps, "api": extra})
     })
@@ -406,7 +413,16 @@ fn main() {
         eprintln!("usage: {} <cases.jsonl> <out.jsonl>", args[0]);
         std::process::exit(2);
     }
-    std::panic::set_hook(Box::new(|_| {}));
+    if std::env::var("C07_PANIC_TRACE").is_ok() {
+        std::panic::set_hook(Box::new(|info| eprintln!("PANIC {}", info)));
+    } else {
+        // one short line per panic on stderr: when the process dies afterwards the parent can name the last panic site
+        std::panic::set_hook(Box::new(|info| {
+            if let Some(l) = info.location() {
+                eprintln!("PANIC at {}:{}", l.file().rsplit('/').next().unwrap_or("?"), l.line());
+            }
+        }));
+    }
     let watch = Arc::new(Watch { deadline_ms: AtomicU64::new(0), case: AtomicU64::new(0), mem_limit_kb: AtomicU64::new(3_000_000) });
     let start = Instant::now();
     {
